@@ -6,6 +6,7 @@
 #include "store_classes.hpp"
 
 #include "Basic/AException.hpp"
+#include "Neigh/ANeigh.hpp"
 
 #include <fstream>
 #include <sstream>
@@ -13,6 +14,8 @@
 #include <unistd.h>
 
 using namespace sk;
+
+int g_storeEventFd = -1;
 
 namespace {
 
@@ -68,7 +71,6 @@ struct FaultyReader : std::streambuf
       {
         // deterministic step budget: a loader that keeps re-reading at EOF is a hang
         const char* m = "X budget-steps\n";
-        extern int g_storeEventFd;
         if (g_storeEventFd >= 0) (void)!write(g_storeEventFd, m, strlen(m));
         _exit(80);
       }
@@ -83,9 +85,6 @@ struct FaultyReader : std::streambuf
     return traits_type::to_int_type(buf[0]);
   }
 };
-} // namespace
-int g_storeEventFd = -1;
-namespace {
 
 // ---------------------------------------------------------------- damage model
 struct Damage
@@ -255,9 +254,23 @@ std::string keyStem(const std::string& k)
   {
     if (c == '[') { inb = true; o += "[#]"; continue; }
     if (c == ']') { inb = false; continue; }
-    if (!inb) o += c;
+    if (inb) continue;
+    if (isdigit((unsigned char)c)) { if (o.empty() || o.back() != '#') o += '#'; continue; }
+    o += c;
   }
   return o;
+}
+// transient operating flags that the library resets on every use are not "defining parameters"
+// (ANeigh::reset() clears the cross-validation flag at the start of every KrigingSystem)
+void neutraliseTransient(ASerializable* o)
+{
+  if (auto* n = dynamic_cast<ANeigh*>(o)) n->setFlagXvalid(false);
+}
+void dropTransient(Desc& d)
+{
+  std::vector<Desc::Entry> keep;
+  for (auto& e : d.e) if (e.key != "xvalid") keep.push_back(e);
+  d.e = keep;
 }
 std::string firstWord(const std::string& s)
 {
@@ -730,6 +743,8 @@ void execRoundTrip(const Plan& p, Ctx& c)
   try
   {
     m.ad->describe(m.obj.get(), d0);
+    dropTransient(d0);
+    neutraliseTransient(m.obj.get());
     m.ad->probe(m.obj.get(), p0);
   }
   catch (const std::exception& e) { c.line(std::string("Z adapter-threw-on-original ") + e.what()); return; }
@@ -804,10 +819,12 @@ void execRoundTrip(const Plan& p, Ctx& c)
   {
     Desc d1, p1;
     m.ad->describe(cur.get(), d1);
+    dropTransient(d1);
     std::string df = descDiff(d0, d1, 5e-15 * rounds);
     if (!df.empty()) { c.violation(P + "describe-differs|" + cn + "|" + keyStem(firstWord(df)), df); return; }
     std::string bad = m.ad->consistent(cur.get());
     if (!bad.empty()) { c.violation(P + "reloaded-inconsistent|" + cn + "|" + firstWord(bad), bad); return; }
+    neutraliseTransient(cur.get());
     m.ad->probe(cur.get(), p1);
     df = descDiff(p0, p1, 1e-12 * rounds, 1e-300);
     if (!df.empty()) { c.violation(P + "probe-differs|" + cn + "|" + keyStem(firstWord(df)), df); return; }
